@@ -98,9 +98,15 @@ func compRun(args []string) error {
 		}
 	}
 	probe := false
-	if *fault == "rejectForwardRefs" {
+	switch *fault {
+	case "rejectForwardRefs":
 		var err error
 		if probe, err = compdrv.ProbeRejectsForwardRefs(*fault); err != nil {
+			return err
+		}
+	case "leakResults":
+		var err error
+		if probe, err = compdrv.ProbeLeaksResults(*fault); err != nil {
 			return err
 		}
 	}
